@@ -13,6 +13,18 @@ from concurrent.futures import ThreadPoolExecutor
 import vlib
 from vlib import log
 
+def validate(module, path, name, **kw):
+    """vlib.validate_trace copies specs/ into a scratch directory; other builders may be writing files there at the same
+    moment (a file vanishing between glob and copy raises OSError), so a failed copy is retried."""
+    for attempt in range(3):
+        try:
+            return vlib.validate_trace(module, path, name, **kw)
+        except OSError as ex:
+            log("[%s] retrying trace validation after %s" % (name, ex))
+            time.sleep(1 + attempt)
+    return vlib.validate_trace(module, path, name, **kw)
+
+
 PID = "C14"
 
 
@@ -52,7 +64,7 @@ def selftest(wd, good_events):
     with open(tp, "w") as f:
         for e in t + a + b + c + d:
             f.write(json.dumps(e) + "\n")
-    v = vlib.validate_trace("PcapFileTrace", tp, "c14self", timeout=600)
+    v = validate("PcapFileTrace", tp, "c14self", timeout=600)
     got = {b_["sc"]: b_["reason"] for b_ in v["bad"]}
     want = {2: "not-eof-or-unexpected-eof", 3: "file-size-differs-from-framing", 4: "capture-length-altered",
             5: "packet-not-wholly-in-prefix-returned"}
@@ -69,8 +81,11 @@ def run(ctx):
     wd = vlib.scratch("c14-%s" % ctx.tier)
     subst = {}
     if quick:
+        # quick: one rotation, one pcapng head (both chosen by the seed), one freely chosen packet (all capture-length
+        # sequences up to 3 packets are still enumerated with rotated comments)
         subst = {r"VSet = \{[^}]*\}": "VSet = {%d}" % (ctx.seed % 5),
-                 r"HeadSet = \{[^}]*\}": "HeadSet = {%d}" % (1 + ctx.seed % 5)}
+                 r"HeadSet = \{[^}]*\}": "HeadSet = {%d}" % (1 + ctx.seed % 5),
+                 r"MaxPk = \d+": "MaxPk = 1"}
     g = vlib.tlc("PcapFileGen", workdir=os.path.join(wd, "gen"), timeout=3000, workers=8, cfg_subst=subst or None)
     if g.violated:
         raise vlib.Infra("PcapFileGen.tla: %s violated (PcapFile.tla rejects the ideal reader / accepts the eager one)" % g.violated)
@@ -83,7 +98,7 @@ def run(ctx):
         keep = scen[:12] + rnd.sample(scen[12:], min(len(scen) - 12, 500))
     else:
         keep = scen
-    nrand = 6 if quick else 60
+    nrand = 6 if quick else 40
     parts = 1 if quick else 8
     per = (len(keep) + parts - 1) // parts
     total_sc = total_ev = tstates = nbad = 0
@@ -104,7 +119,7 @@ def run(ctx):
                 "-rand", str(nrand if pi == 0 else 0)]
         p = vlib.run(args, timeout=3000, ok_codes=(0, 3))
         st = json.loads(p.stdout.strip().splitlines()[-1])
-        v = vlib.validate_trace("PcapFileTrace", tp, "c14p%d" % pi, heap="6g", timeout=3000)
+        v = validate("PcapFileTrace", tp, "c14p%d" % pi, heap="6g", timeout=3000)
         return st, v, tp
 
     with ThreadPoolExecutor(max_workers=parts) as ex:
